@@ -59,7 +59,7 @@ TCall ==
     /\ LET c == Rec[l]
            fx == FirstXph(l + 1)
            h0 == IF fx = 0 THEN 0 ELSE fx - c.x0.r
-       IN /\ cid' = c.id /\ api' = c.api
+       IN /\ cid' = c.id /\ api' = (IF c.nocb THEN "solve_ivp" ELSE c.api)
           /\ P' = [x0 |-> c.x0.r, xe |-> c.xend.r, slo |-> c.m.xend_lo, shi |-> c.m.xend_hi,
                    nmax |-> IF c.maxsteps < 0 THEN 100000 ELSE c.maxsteps, hmax |-> 0]
           /\ x' = c.x0.r /\ xold' = c.x0.r /\ xph' = c.x0.r
